@@ -216,6 +216,13 @@ func C20(c *core.Ctx) {
 	if !ok {
 		c.Fail("B-ROUTE:unique", "field outputs", "file names unique among outputs", "", "no proof that two outputs never share a file name: Sources() would concatenate them in map order and a same-file/different-package conflict could go unnoticed", nil)
 	}
+	// the id that routing compares with the --schema-package/--schema-output/--schema-root-type keys is the id AS WRITTEN in the document:
+	// Schema.ID receives only the decoded "$id" (or the legacy "id" when "$id" is absent) and nothing rewrites it
+	if r := a.LegacyFold(engb.LegacyPair{Func: "(*pkg/schemas.Schema).UnmarshalJSON", CurTag: "$id", LegacyTag: "id"}); r.OK {
+		c.Pass("B-LEGACY", "(*pkg/schemas.Schema).UnmarshalJSON", "schema id reaches routing verbatim (id -> $id)", r.How)
+	} else {
+		c.Fail("B-LEGACY", "(*pkg/schemas.Schema).UnmarshalJSON", "schema id reaches routing verbatim (id -> $id)", r.Pos, strings.Join(r.Problems, "; "), r.Problems)
+	}
 	// B-REFCACHE: a cache keyed by the file-relative text of a $ref must live and die with one file's generator, or the code for a
 	// schema depends on which other files were processed before it
 	emit(c, a.RefCacheScope())
